@@ -62,6 +62,7 @@ struct C<'a> {
     server_silent: bool,
     arp_answer: bool,
     polled_exactly: bool,
+    idle: u32,
     start_us: i64,
     /// instants of the latest polls (the neighbour-discovery silence of a socket ends exactly 1 s after one)
     recent_polls: std::collections::VecDeque<i64>,
@@ -151,6 +152,7 @@ pub fn run(tape: &mut Tape, props: Props, thorough: bool, trace_on: bool) -> Out
         server_silent: false,
         arp_answer: true,
         polled_exactly: true,
+        idle: 0,
         start_us: now,
         recent_polls: Default::default(),
         arp_pending: false,
@@ -620,6 +622,7 @@ fn respond(c: &mut C, d: &Dhcp, mt: u8) -> Result<(), Violation> {
 fn body(c: &mut C, thorough: bool) -> Result<(), Violation> {
     let steps = c.tape.range(20, if thorough { 800 } else { 250 });
     for _ in 0..steps {
+        let tx_before_poll = c.stats.get("frames.tx");
         poll(c)?;
         // scenario switches
         match c.tape.draw(240) {
@@ -649,6 +652,30 @@ fn body(c: &mut C, thorough: bool) -> Result<(), Violation> {
             }
         };
         c.polled_exactly = true;
+        // C13: an extra poll strictly before the deadline / next arrival transmits nothing; a poll that
+        // moved nothing is followed by a later deadline
+        if c.props.has("C13") {
+            if next <= c.now {
+                c.idle += 1;
+                if c.idle >= 4 && c.stats.get("frames.tx") == tx_before_poll && d.map(|t| t <= c.now).unwrap_or(false) {
+                    return Err(viol("C13", "no-spin", "C13.spin/dhcp-client", format!("after {} consecutive polls at t={} us that moved no frame, poll_at still returns {:?}", c.idle, c.now, d)));
+                }
+            } else {
+                c.idle = 0;
+                if next > c.now + 1 && c.tape.draw(3) == 0 {
+                    let t = if c.tape.draw(4) == 0 { next - 1 } else { c.now + 1 + c.tape.draw((next - c.now - 1) as u64) as i64 };
+                    let before = c.stats.get("frames.tx");
+                    let save = c.now;
+                    c.now = t;
+                    poll(c)?;
+                    c.stats.inc("c13.early-probes");
+                    if c.stats.get("frames.tx") > before {
+                        return Err(viol("C13", "sufficiency", "C13.early-tx/dhcp-client", format!("poll_at at t={} us returned {:?}; an extra poll at t={} us with nothing delivered in between transmitted a frame", save, d, t)));
+                    }
+                    continue;
+                }
+            }
+        }
         // a stalled node polls late (allowed by the lease clause: "unless no poll has happened since")
         if c.tape.draw(12) == 0 {
             next += *c.tape.pick(&[1_000i64, 500_000, 5_000_000, 120_000_000, 86_400_000_000]);
